@@ -142,7 +142,13 @@ def run_real(case):
             outs.append("KeyError")
         except IndexError:
             outs.append("IndexError")
-    return {"ctor": "ok", "plan": plan, "propagate": bool(mw.propagate_ctx), "outs": outs, "len": len(mw), "_mw": mw, "_counter": counter}
+    # iteration protocol after the forms (the instrumentation counter keeps running, as in the model's `iterAll`)
+    try:
+        it = [canon_out(o, n_items, case["return_ctx"]) for o in mw]
+    except KeyError:
+        it = "KeyError"
+    out = {"ctor": "ok", "plan": plan, "propagate": bool(mw.propagate_ctx), "outs": outs, "len": len(mw), "iter": it, "_mw": mw, "_counter": counter}
+    return out
 
 
 # ----------------------------------------------------------------------------------------------
